@@ -401,6 +401,8 @@ Record static_args := {
   a_service : option str;         (* --service *)
   a_metrics_port : option str;    (* --metrics-port, default 9113 *)
   a_health_port : option str;     (* --health-port, default 8081 *)
+  a_metrics_disable : bool;       (* --metrics-disable (not consulted by any check) *)
+  a_health_disable : bool;        (* --health-disable (not consulted by any check) *)
   a_lock : option str;            (* --leader-election-lock-name *)
   a_plus : bool;                  (* --nginx-plus *)
   a_secret : option str;          (* --usage-report-secret, default nplus-license *)
